@@ -75,3 +75,29 @@ extern "C" void h_float2oct(void) {
   verif_assert(cs == s && ct == t, "result is canonical");
   verif_reach();
 }
+
+// direction sanity implied by the angle bound: a strictly dominant component (|v_i| > 2|v_j|) stays the largest component,
+// with the same sign, after quantization -- for every finite input incl. huge / tiny magnitudes
+extern "C" void h_float2oct_dir(void) {
+  OctahedronToolBox tb;
+  const int q = pick_q();
+  tb.SetQuantizationBits(q);
+  const int32_t c = tb.center_value();
+  float v[3] = {nondet_float(), nondet_float(), nondet_float()};
+  verif_assume(!isnan(v[0]) && !isinf(v[0]) && !isnan(v[1]) && !isinf(v[1]) && !isnan(v[2]) && !isinf(v[2]));
+  const int i = nondet_u8() % 3, j = (i + 1) % 3, k = (i + 2) % 3;
+  const double ai = fabs((double)v[i]), aj = fabs((double)v[j]), ak = fabs((double)v[k]);
+  verif_assume(ai > 1e-5 && ai > 2 * aj && ai > 2 * ak);
+  int32_t s, t;
+  tb.FloatVectorToQuantizedOctahedralCoords(v, &s, &t);
+  // integer inverse of the octahedral unwrapping (mirrors OctahedralCoordsToUnitVector on the integer grid)
+  int32_t R[3];
+  int32_t Y = s - c, Z = t - c;
+  int32_t X = c - (Y < 0 ? -Y : Y) - (Z < 0 ? -Z : Z);
+  if (X < 0) { const int32_t off = -X; Y += (Y < 0 ? off : -off); Z += (Z < 0 ? off : -off); }
+  R[0] = X; R[1] = Y; R[2] = Z;
+  const int32_t Ri = R[i] < 0 ? -R[i] : R[i], Rj = R[j] < 0 ? -R[j] : R[j], Rk = R[k] < 0 ? -R[k] : R[k];
+  verif_assert(Ri + 2 >= Rj && Ri + 2 >= Rk, "a strictly dominant component of the normal stays dominant after quantization");
+  verif_assert(R[i] != 0 && ((R[i] > 0) == (v[i] > 0)), "the dominant component keeps its sign");
+  verif_reach();
+}
